@@ -309,6 +309,7 @@ func cmdCheck(propID, tier string) int {
 		return 2
 	}
 	exit := 0
+	nProcDiverge, procCompared := 0, 0
 	var replayPaths []string
 	if len(unknown) > 0 {
 		// minimise and confirm the first occurrence of up to 3 distinct classes
@@ -336,6 +337,40 @@ func cmdCheck(propID, tier string) int {
 			}
 		}
 	}
+	if propID == "C06" && exit == 0 {
+		// fresh-process leg: re-execute sampled runs in new OS processes with other GOMAXPROCS
+		k := 6
+		if tier == "thorough" {
+			k = 48
+		}
+		if k > len(agg.results) {
+			k = len(agg.results)
+		}
+		self, _ := os.Executable()
+		for _, gmp := range []string{"1", "3"} {
+			out := filepath.Join(agg.failDir, "proc-"+gmp+".jsonl")
+			cmd := exec.Command(self, "worker", propID, tier, strconv.FormatUint(batch, 10), "0", strconv.Itoa(k), out)
+			cmd.Env = append(os.Environ(), "GOMAXPROCS="+gmp, "VERIF_SCRATCH="+filepath.Join(agg.failDir, "homes-p"+gmp))
+			if err := cmd.Run(); err != nil {
+				fmt.Fprintf(os.Stderr, "MACHINERY-ERROR property=C06: fresh-process leg failed: %v\n", err)
+				exit = 2
+				break
+			}
+			rs, _ := readResults(out)
+			for i, r := range rs {
+				if i < len(agg.results) && r.TraceDigest != agg.results[i].TraceDigest {
+					outp := filepath.Join(verifRoot, "replays", fmt.Sprintf("C06-%d-%d-process.json", batch, r.Run))
+					c2 := exec.Command(self, "run", propID, strconv.Itoa(r.Run), tier, outp)
+					c2.Env = append(os.Environ(), "VERIF_SEED="+strconv.FormatUint(batch, 10))
+					_ = c2.Run()
+					fmt.Printf("VIOLATION property=C06 replay=%s\n  class=C06:diverge:trace:process run=%d: a fresh OS process (GOMAXPROCS=%s) produced block trace %s, the batch worker %s\n", outp, r.Run, gmp, r.TraceDigest, agg.results[i].TraceDigest)
+					exit = 1
+					nProcDiverge++
+				}
+			}
+			procCompared += len(rs)
+		}
+	}
 	for _, cls := range sortedKeys(knownHits) {
 		kf := knownFor(known, propID, cls)
 		fmt.Printf("KNOWN-FINDING: property=%s class=%s hits=%d %s\n", propID, cls, knownHits[cls], kf.What)
@@ -349,7 +384,12 @@ func cmdCheck(propID, tier string) int {
 			fmt.Printf("  violation-class %s: %d\n", c, cc[c])
 		}
 	}
-	ev := writeEvidence(p, tier, batch, agg, time.Since(t0), len(unknown), knownHits)
+	extraCov = map[string]interface{}{}
+	if propID == "C06" {
+		extraCov["fresh_process_reexecutions"] = procCompared
+		extraCov["fresh_process_divergences"] = nProcDiverge
+	}
+	ev := writeEvidence(p, tier, batch, agg, time.Since(t0), len(unknown)+nProcDiverge, knownHits)
 	// a required probe stuck at zero means the workload does not reach the obligation: machinery problem
 	if exit == 0 {
 		for _, rp := range p.Required {
@@ -395,6 +435,8 @@ type evSummary struct {
 	blocks     int
 	txs        int
 }
+
+var extraCov map[string]interface{}
 
 func writeEvidence(p *Property, tier string, batch uint64, agg *batchAgg, wall time.Duration, nViol int, knownHits map[string]int) evSummary {
 	faults := map[string]int{}
@@ -452,6 +494,9 @@ func writeEvidence(p *Property, tier string, batch uint64, agg *batchAgg, wall t
 		"known_findings_hit":  knownHits,
 		"components":          map[string]interface{}{"real": realComponents, "stub": stubComponents},
 		"workers":             envInt("VERIF_WORKERS", runtime.NumCPU()),
+	}
+	for k, v := range extraCov {
+		cov[k] = v
 	}
 	ev := map[string]interface{}{
 		"property_id": p.ID,
